@@ -8,6 +8,7 @@ CONSTANTS
   Split = FALSE
   PeekStop = TRUE
   WireGaps = FALSE
+  CutStop = TRUE
 SPECIFICATION GSpec
 INVARIANT GoalLateAfterEOF
 CHECK_DEADLOCK FALSE
